@@ -22,6 +22,19 @@ fn special_bases() -> Vec<Node> {
         v.push(Alt(vec![x.clone(), Node::lit("a")]));
         v.push(Concat(vec![Atomic(bx(Repeat(bx(x.clone()), 0, None, Mode::Greedy))), Node::lit("g")]));
     }
+    // possessive quantifiers of every form (`X{n}+`, `X{n,m}+`, `X{n,}+`, `X++`, ..) over bodies
+    // that can match in more than one way, followed by something that would like a give-back
+    let ab = || Alt(vec![Node::lit("a"), Node::lit("ab")]);
+    let bodies: Vec<Node> = vec![ab(), Node::group(ab()), Repeat(bx(Node::lit("a")), 0, Some(1), Mode::Greedy), Node::group(Repeat(bx(Node::lit("a")), 0, None, Mode::Greedy)), Node::class("[ab]"), Alt(vec![Node::lit("ab"), Node::lit("a"), Node::lit("b")])];
+    let tails: Vec<Node> = vec![Node::lit("c"), Node::lit("b"), Node::lit("a"), Node::lit("ab")];
+    for body in &bodies {
+        for (lo, hi) in [(2u32, Some(2u32)), (1, Some(1)), (3, Some(3)), (1, Some(2)), (0, Some(2)), (2, None), (1, None), (0, None), (0, Some(1))] {
+            for tail in &tails {
+                v.push(Concat(vec![Repeat(bx(body.clone()), lo, hi, Mode::Poss), tail.clone()]));
+            }
+            v.push(Concat(vec![Node::lit("a"), Node::group(Repeat(bx(body.clone()), lo, hi, Mode::Poss)), Node::lit("b")]));
+        }
+    }
     v
 }
 
@@ -252,6 +265,7 @@ pub fn run(ctx: &Ctx) -> Outcome {
     bases.extend(sp.patterns);
     let mut texts = spaces::texts_c01(ctx.tier.pick(2, 3));
     texts.extend(gen::texts(&["a", "f", "0", "\x1b", "\t", "g"], 2));
+    texts.extend(["ababc", "abab", "aabc", "abc", "aab", "abb", "aaab", "ababab", "aabb"].iter().map(|s| s.to_string()));
     let _ = A::StartText;
     let acc = par_run(&bases, false, Some(5_000_000), |i, p, acc| {
         if !p.refs_exist() {
